@@ -563,6 +563,19 @@ func (m *monitor) run(line string) string {
 	if d1, d2 := w.dump(), w.dump(); d1 != d2 {
 		m.report("reads-not-idempotent", fmt.Sprintf("after %s: two consecutive full observations differ", line))
 	}
+	// O11 the consensus readers (consensus/access) answer on every committed state
+	m.checksBy["O11"]++
+	if x := hx.Guard(func() string { return w.readerStr() }); strings.HasPrefix(x, "PANIC") {
+		key := "reader-panic"
+		// the readers look at the last COMMITTED state: any id of this episode with an accepted application may be in it
+		for k := range m.accepted {
+			raw, _ := hx.UnHex(k)
+			if len(bytes.TrimLeft(raw, "\x00")) > 32 {
+				key = "reader-panics-on-long-id"
+			}
+		}
+		m.report(key, fmt.Sprintf("after %s: MinerPoolReader.GetCandidateMiners panics: %s", line, x))
+	}
 	// O7 status is a function of the stake: what a fresh application of the same stake would give
 	m.checksBy["O7"]++
 	var sumByStake uint64
@@ -656,6 +669,8 @@ func witnesses() map[string][]string {
 		"pkcache-keeps-discarded-block": append(pre("11"),
 			"apply "+a1+" 11 0 800 - 07 01", "endblock 101",
 			"refund "+a1+" 11 "+maxU64, "apply "+a1+" 11 0 800 - 09 01", "rewind", "endblock 102"),
+		"reader-panics-on-long-id": append(pre(strings.Repeat("33", 33)),
+			"apply "+a1+" "+strings.Repeat("33", 33)+" 0 400 - 01 01", "endblock 101"),
 		"refund-lost-second-account": append(pre("11,22"),
 			"apply "+a1+" 11 0 800 - 01 01", "apply "+a2+" 22 0 800 - 01 01", "endblock 101",
 			"refund "+a1+" 11 100", "refund "+a2+" 22 100", "endblock 102"),
